@@ -12,6 +12,7 @@
 """
 import hashlib
 import json
+import cmath
 import math
 import random
 
@@ -128,6 +129,67 @@ def regref_signature(v, ndigits=9):
     return sorted(regs), vals
 
 
+class _Unknown(Exception):
+    pass
+
+
+_CFUNCS = {
+    "sin": cmath.sin, "cos": cmath.cos, "tan": cmath.tan, "asin": cmath.asin, "acos": cmath.acos,
+    "atan": cmath.atan, "sinh": cmath.sinh, "cosh": cmath.cosh, "tanh": cmath.tanh,
+    "asinh": cmath.asinh, "acosh": cmath.acosh, "atanh": cmath.atanh, "exp": cmath.exp,
+    "log": cmath.log, "Abs": abs, "re": lambda z: z.real, "im": lambda z: z.imag,
+    "conjugate": lambda z: z.conjugate(),
+}
+
+
+def _machine_eval(e, sub):
+    """Machine-complex evaluation of a SymPy tree; raises OverflowError /
+    ZeroDivisionError / ValueError where a double leaves its range, _Unknown for
+    a node it does not know.  Only a range pre-screen: the multi-precision
+    evaluation of x**(y**huge) builds integers of gigabytes (seen: a C13 worker
+    killed at seed 3), so a point where a double overflows is not evaluated
+    exactly at all - deterministically, never by a clock."""
+    if e.is_Symbol:
+        r = complex(sub[e])
+    elif e.is_Number:
+        r = complex(float(e))
+    elif e is sym.I:
+        r = 1j
+    elif e.is_NumberSymbol:
+        r = complex(float(e))
+    elif e.is_Add:
+        r = 0j
+        for a in e.args:
+            r += _machine_eval(a, sub)
+    elif e.is_Mul:
+        r = 1 + 0j
+        for a in e.args:
+            r *= _machine_eval(a, sub)
+    elif e.is_Pow:
+        b = _machine_eval(e.args[0], sub)
+        x = _machine_eval(e.args[1], sub)
+        if abs(x) > 1e6:
+            raise OverflowError("exponent magnitude")
+        r = b ** x
+    elif e.is_Function and type(e).__name__ in _CFUNCS and len(e.args) == 1:
+        r = complex(_CFUNCS[type(e).__name__](_machine_eval(e.args[0], sub)))
+    else:
+        raise _Unknown(type(e).__name__)
+    if not (math.isfinite(r.real) and math.isfinite(r.imag)):
+        raise OverflowError("non-finite")
+    return r
+
+
+def out_of_machine_range(expr, sub):
+    try:
+        _machine_eval(expr, sub)
+    except (OverflowError, ZeroDivisionError, ValueError):
+        return True
+    except (_Unknown, TypeError, RecursionError):
+        return False
+    return False
+
+
 def sym_signature(v, ndigits=9):
     names = sorted(str(s) for s in v.free_symbols)
     vals = []
@@ -137,6 +199,9 @@ def sym_signature(v, ndigits=9):
             for s in v.free_symbols:
                 rr = random.Random("symprobe/%s" % s)
                 sub[s] = sym.Float(rr.choice([-1, 1]) * rr.uniform(0.4, 2.5) + shift, 17)
+            if out_of_machine_range(v, sub):
+                vals.append("exc:range")
+                continue
             z = complex(v.xreplace(sub).evalf(20))
             vals.append("%.*g%+.*gj" % (ndigits, z.real, ndigits, z.imag))
         except Exception as e:
@@ -272,6 +337,8 @@ def _points(names, seed, k):
 
 def eval_sym(expr, point):
     sub = {s: sym.Float(point[str(s)], 17) for s in expr.free_symbols}
+    if out_of_machine_range(expr, sub):
+        raise OverflowError("outside the range of a double at this point")
     return complex(expr.xreplace(sub).evalf(25))
 
 
